@@ -5,7 +5,7 @@ import operator
 
 from python_minifier.ast_annotation import add_parent
 from python_minifier.rename import add_namespace
-from vf.stubs import untraced, mod, patched
+from vf.stubs import untraced, bits_index, decode_index, mod, patched
 
 OPS = [(ast.Add, operator.add, '+'), (ast.Sub, operator.sub, '-'), (ast.Mult, operator.mul, '*'), (ast.FloorDiv, operator.floordiv, '//'),
        (ast.Mod, operator.mod, '%'), (ast.LShift, operator.lshift, '<<'), (ast.RShift, operator.rshift, '>>'), (ast.BitOr, operator.or_, '|'),
@@ -338,3 +338,53 @@ def _number_print_impl(iv, neg, ctx):
 NUMS = [0, 1, 9, 10, 15, 16, 255, 256, 4095, 10 ** 6, 10 ** 12, 2 ** 64, 0.0, 0.5, 1.0, 1.5, 10.0, 100.0, 1000.0, 1e5, 1e15, 1e16, 1e17, 1.5e300,
         1e-4, 1e-5, 1.5e-7, 0.1, 123456.789, 1e999, 5e-324, 1.7976931348623157e308, 0j, 1j, 1.5j, 10j, 1e16j, 1e999j, 0.5j, 1e-5j]
 N_NUMS = len(NUMS)
+
+
+VARIANT_PAIRS = [(c, d) for c in range(4) for d in range(4)]
+
+
+def fold_pairs_b(op: int, b0: bool, b1: bool, b2: bool, b3: bool, b4: bool, b5: bool, b6: bool, b7: bool, b8: bool, b9: bool, b10: bool, b11: bool) -> bool:
+    """
+    pre: 0 <= op < N_OPS
+    post: _
+    """
+    return untraced(_fold_pairs_b_impl, op, bits_index(b0, b1, b2, b3, b4, b5, b6, b7, b8, b9, b10, b11))
+
+
+def _fold_pairs_b_impl(op, idx):
+    d = decode_index(idx, [N_VALS, N_VALS, len(VARIANT_PAIRS)])
+    if d is None:
+        return True
+    vc, vd = VARIANT_PAIRS[d[2]]
+    return _fold_pairs_impl(op, d[0], d[1], vc, vd)
+
+
+def fold_nested_b(op2: int, right_nested: bool, ctx: int, b0: bool, b1: bool, b2: bool, b3: bool, b4: bool, b5: bool, b6: bool, b7: bool, b8: bool, b9: bool, b10: bool, b11: bool) -> bool:
+    """
+    pre: 0 <= op2 < N_OPS
+    pre: 0 <= ctx < N_CTX
+    post: _
+    """
+    return untraced(_fold_nested_b_impl, op2, right_nested, ctx, bits_index(b0, b1, b2, b3, b4, b5, b6, b7, b8, b9, b10, b11))
+
+
+def _fold_nested_b_impl(op2, right_nested, ctx, idx):
+    d = decode_index(idx, [N_OPS, 8, 8, 8])
+    if d is None:
+        return True
+    sel = [1, 3, 4, 7, 9, 12, 14, 15]     # 8 of the representative literals: 1 3 10 True 1.0 0.5 1e999 2j
+    return _fold_nested_impl(d[0], op2, sel[d[1]], sel[d[2]], sel[d[3]], ctx, right_nested)
+
+
+def number_print_b(neg: bool, b0: bool, b1: bool, b2: bool, b3: bool, b4: bool, b5: bool, b6: bool, b7: bool, b8: bool, b9: bool, b10: bool, b11: bool) -> bool:
+    """
+    post: _
+    """
+    return untraced(_number_print_b_impl, neg, bits_index(b0, b1, b2, b3, b4, b5, b6, b7, b8, b9, b10, b11))
+
+
+def _number_print_b_impl(neg, idx):
+    d = decode_index(idx, [N_NUMS, N_CTX])
+    if d is None:
+        return True
+    return _number_print_impl(d[0], neg, d[1])
